@@ -1,6 +1,7 @@
 import LunarVerif.Base.Proto
 import LunarVerif.Spec.C04
 import LunarVerif.Spec.C04Ref
+import LunarVerif.Spec.C04Sel
 /-! Driver for C04: `lvdriver_c04 run` (model answers) / `lvdriver_c04 judge` (Spec on impl answers). -/
 open LunarVerif LunarVerif.Proto LunarVerif.FlowGraph LunarVerif.FlowExec LunarVerif.C04
 
@@ -67,7 +68,7 @@ def cfgStep (c : CfgR) (ws : List String) : Option CfgR :=
   match ws with
   | "ptype" :: n :: outs =>
     (outs.mapM parseOutDef).map fun os => { c with ptypes := c.ptypes ++ [⟨pctDec n, os⟩] }
-  | ["flow", n, "kind=user"] =>
+  | "flow" :: n :: "kind=user" :: _ =>
     some { c with flows := c.flows ++ [⟨.user, ⟨pctDec n, [], [], []⟩⟩] }
   | ["proc", f, k, pt] => updFlow c (pctDec f) fun r => { r with procs := r.procs ++ [(pctDec k, pctDec pt)] }
   | ["conn", f, d, a, b] =>
@@ -88,6 +89,39 @@ def cfgStep (c : CfgR) (ws : List String) : Option CfgR :=
     | some cc, some w => some { c with quotas := c.quotas ++ [⟨pctDec id, (pctDec id).replace "." "", cc, w⟩] }
     | _, _ => none
   | _ => none
+
+/-! ### flow filters and transaction attributes -/
+
+def splitList (s : String) : List String := if s == "" || s == "-" then [] else s.splitOn ","
+
+def parsePair (w : String) : String × Option String :=
+  match w.splitOn ":" with
+  | [k, v] => (pctDec k, some (pctDec v))
+  | k :: _ => (pctDec k, none)
+  | [] => ("", none)
+
+/-- `flow <name> kind=user [m=GET,POST] [h=k:v,…] [st=200,…] [q=k:v,k,…]` -/
+def parseFilter (ws : List String) : Filter :=
+  { methods := ((kv ws "m").map splitList).getD [] |>.map pctDec
+    headers := (((kv ws "h").map splitList).getD []).map fun w => let p := parsePair w; (p.1, p.2.getD "")
+    status := (((kv ws "st").map splitList).getD []).filterMap String.toNat?
+    query := (((kv ws "q").map splitList).getD []).map parsePair }
+
+/-- `txn … [m=GET] [h=k:v,…] [q=k:v,…] [st=200] [rm=GET]` -/
+def parseAttrs (ws : List String) : TxnAttrs :=
+  { method := ((kv ws "m").map pctDec).getD "GET"
+    headers := (((kv ws "h").map splitList).getD []).map fun w => let p := parsePair w; (p.1, p.2.getD "")
+    query := (((kv ws "q").map splitList).getD []).map fun w => let p := parsePair w; (p.1, p.2.getD "")
+    status := ((kv ws "st").bind String.toNat?).getD 200
+    respMethod := ((kv ws "rm").map pctDec).getD "GET" }
+
+/-- filters of the declared flows; a later declaration of the same name overrides -/
+abbrev Filters := List (String × Filter)
+
+def addFilter (fs : Filters) (ws : List String) : Filters :=
+  match ws with
+  | "flow" :: n :: "kind=user" :: rest => (pctDec n, parseFilter rest) :: fs
+  | _ => fs
 
 def parseOrder (ws : List String) : List String :=
   match kv ws "order" with
@@ -205,6 +239,7 @@ structure RunSt where
   cfg : CfgR := {}
   loaded : Option Loaded := none
   owners : Owners := []
+  filters : Filters := []
 
 def allNamed (c : CfgR) (order : List String) : Bool := c.flows.all fun d => order.contains d.rep.name
 
@@ -235,17 +270,19 @@ def runStep (s : RunSt) (line : String) : RunSt × String :=
       | none => (s, "not-loaded")
       | some l =>
         if l.unsafeCycle then (s, "unsafe-cycle")
-        else (s, fmtTxn (userNames s.cfg) s.owners (runTxn l t.toOracle d))
+        else (s, fmtTxn (userNames s.cfg) s.owners
+          (transactionSel s.filters (parseAttrs rest) l.selected t.toOracle (fuelFor l.selected) d))
     | _, _ => (s, "bad-op")
   | _ =>
     match cfgStep s.cfg ws with
-    | some c => ({ s with cfg := c }, "ok")
+    | some c => ({ s with cfg := c, filters := addFilter s.filters ws }, "ok")
     | none => (s, "bad-op")
 
 /-! ### judge mode: Spec on the implementation's answers -/
 
 structure JudgeSt where
   cfg : CfgR := {}
+  filters : Filters := []
   order : List String := []
   accepted : Bool := false
   bad : Option String := none
@@ -297,7 +334,7 @@ def judgeStep (s : JudgeSt) (op out : String) : JudgeSt :=
           let (sc, asym) := match (if s.cfg.flows.any (·.rep.borrows) then none else s.cfg.base?) with
             | some c => (specCfg c s.order, false)
             | none => (specCfgR s.cfg s.order, refDiverges s.cfg)
-          match judgeTxn sc (userNames s.cfg) (instSpec s.cfg) t.toOracle d tr err with
+          match judgeTxnSel s.filters (parseAttrs rest) sc (userNames s.cfg) (instSpec s.cfg) t.toOracle d tr err with
           | none => s
           | some (fid0, msg) =>
             let fid := if fid0 == "-" && asym then "F04f" else fid0
@@ -307,7 +344,7 @@ def judgeStep (s : JudgeSt) (op out : String) : JudgeSt :=
     | _ => s   -- not-loaded / unsafe-cycle / bad-op: nothing was executed
   | _ =>
     match cfgStep s.cfg ws with
-    | some c => { s with cfg := c }
+    | some c => { s with cfg := c, filters := addFilter s.filters ws }
     | none => s
 
 def judgeFinish (s : JudgeSt) : String :=
